@@ -5,7 +5,7 @@
     add::add_in_place), with the allocation sizes of Repr::from_chunks.  For every word size, every chunk
     width and all chunks (wider than chunk_bits or not): no index is out of range, the discarded shift carry
     and the asserted addition carry are zero, and the words denote from_chunks_spec. *)
-From Dashu Require Import Base.Prelude Base.Words Int.RingAdd Int.RingAddProofs Int.DivWordModel Int.DivWordProofs Int.IoSpec.
+From Dashu Require Import Base.Prelude Base.Words Int.RingAdd Int.RingAddProofs Int.DivWordModel Int.DivWordProofs Int.IoSpec Int.IoModel.
 Open Scope Z_scope.
 
 Section C2W.
@@ -113,7 +113,7 @@ Proof.
     assert (Hlo0 : 0 <= lo) by (apply Words.value_nonneg; [exact w_pos | apply wf_firstn; exact Hwf]).
     assert (Hlenf : length (firstn pos out) = pos) by (rewrite firstn_length; lia).
     assert (Hpow : B ^ posz * 2 ^ s = 2 ^ (i * cb)).
-    { rewrite Bpow by lia. rewrite <- Z.pow_add_r by nia. f_equal. lia. }
+    { rewrite Bpow by lia. assert (0 <= w * posz) by (apply Z.mul_nonneg_nonneg; lia). rewrite <- Z.pow_add_r by lia. f_equal. lia. }
     assert (PB : 0 < B ^ posz) by (apply Z.pow_pos_nonneg; lia).
     (* the new partial sum and its bound *)
     set (T := value out + 2 ^ (i * cb) * value chunk).
@@ -121,15 +121,21 @@ Proof.
     assert (Hcw : value chunk < 2 ^ (w * Z.of_nat L)).
     { rewrite <- Bpow by lia. assert (B ^ len chunk <= B ^ Z.of_nat L) by (apply Z.pow_le_mono_r; unfold len; lia). lia. }
     assert (P2i : 0 < 2 ^ (i * cb)) by (apply Z.pow_pos_nonneg; lia).
+    assert (WL : 0 <= w * Z.of_nat L) by (apply Z.mul_nonneg_nonneg; lia).
     assert (HTb : T < 2 ^ (w * Z.of_nat L + i * cb + 1)).
-    { unfold T. rewrite Z.pow_add_r, Z.pow_1_r by nia. rewrite Z.pow_add_r in Hbound by nia.
-      rewrite Z.pow_add_r by nia. set (a := 2 ^ (w * Z.of_nat L)) in *. set (b := 2 ^ (i * cb)) in *.
+    { unfold T. rewrite Z.pow_add_r, Z.pow_1_r by lia. rewrite Z.pow_add_r in Hbound by lia.
+      rewrite Z.pow_add_r by lia. set (a := 2 ^ (w * Z.of_nat L)) in *. set (b := 2 ^ (i * cb)) in *.
       clear - Hbound Hcw P2i. nia. }
     assert (HTcap : T < B ^ Z.of_nat RL).
     { rewrite Bpow by lia. apply Z.lt_le_trans with (2 ^ (w * Z.of_nat L + i * cb + 1)); [exact HTb|].
-      apply Z.pow_le_mono_r; [lia|]. assert (i * cb <= (n - 1) * cb) by nia.
-      assert (w * Z.of_nat L + w * ((n - 1) * cb) + w <= w * Z.of_nat RL) by nia.
-      assert ((n - 1) * cb + 1 <= w * ((n - 1) * cb) + w) by nia. lia. }
+      apply Z.pow_le_mono_r; [lia|].
+      assert (H1 : i * cb <= (n - 1) * cb) by (apply Z.mul_le_mono_nonneg_r; lia).
+      assert (H0 : 0 <= (n - 1) * cb) by (apply Z.mul_nonneg_nonneg; lia).
+      pose proof (Z.mul_le_mono_nonneg_l _ _ w ltac:(lia) RL_ok) as H2.
+      replace (w * (Z.of_nat L + (n - 1) * cb + 1)) with (w * Z.of_nat L + w * ((n - 1) * cb) + w) in H2 by ring.
+      assert (H3 : (n - 1) * cb + 1 <= w * ((n - 1) * cb) + w).
+      { set (t := (n - 1) * cb) in *. clear - H0 w_pos. nia. }
+      lia. }
     assert (Hc : c = false).
     { destruct c; [exfalso|reflexivity]. cbn [b2z] in Hvs. rewrite Z.mul_1_l in Hvs.
       pose proof (Words.value_nonneg w w_pos sum Hwsum) as Hs0.
@@ -178,3 +184,7 @@ Example from_chunks_words_ex :
   rmap (Words.value 64) (from_chunks_words 64 100 [[5; 2 ^ 40]; [0]; [7; 9; 1]]) =
   Ok (from_chunks_spec 100 [5 + 2 ^ 64 * 2 ^ 40; 0; 7 + 2 ^ 64 * 9 + 2 ^ 128]).
 Proof. vm_compute. reflexivity. Qed.
+
+(** UBig::from_chunks: `u.as_words()` of every chunk (the words of a normalised magnitude), Repr::from_chunks, the value *)
+Definition from_chunks_words_z (w cb : Z) (cs : list Z) : result Z :=
+  rmap (Words.value w) (from_chunks_words w cb (map (fun c => to_words w (IoModel.nwords w c) c) cs)).
